@@ -449,6 +449,9 @@ class Scanner:
         self.pos += 1
         self.start = self.pos
 
+        # insensitive_string = { "^" ~ string } is a normal rule.
+        self.skip_trivia()
+
         if self.peek() != '"':
             self.error("expected a string literal")
 
